@@ -41,7 +41,7 @@ RULE = (
     "mode, dictionary); non-trivial = the dictionary selects an overload, a pre-set/default option or a template."
 )
 ASSUMPTIONS = ["graphs are built from importable module-level functions in explicit dataset(f) form; the decorator form is the recorded finding pickle-decorator-form-dataset"]
-FLOORS = {"roundtrips": (66, 66), "outcomes_compared": (2400, 2400), "child_interpreters": (22, 66), "post_load_registrations": (30, 30),
+FLOORS = {"wired_together_checks": (12, 12), "roundtrips": (78, 78), "outcomes_compared": (3000, 3000), "child_interpreters": (26, 78), "post_load_registrations": (30, 30),
           "unpickled_register_schedules": (150, 1500)}
 SHARDS_QUICK = 2
 SHARDS_THOROUGH = 4
@@ -54,7 +54,7 @@ from lvf.outcome import observe
 import lvf.picklemod as M
 data = pickle.load(open(sys.argv[1], "rb"))
 out = []
-for o in M.CORPUS:
+for o in json.load(open(sys.argv[2])):  # (the parent's corpus: it may have grown at run time)
     out.append([repr(observe(data.evaluate, dict(o))), repr(observe(data.keys, dict(o)))])
 print(json.dumps(out))
 """
@@ -102,8 +102,11 @@ def child_roundtrip(ctx, name, proto, blob, expected, hashseed):
         with open(path, "wb") as f:
             f.write(blob)
         env = dict(os.environ, PYTHONHASHSEED=str(hashseed), PYTHONPATH=boot.VERIF)
+        cpath = os.path.join(tmp, "corpus.json")
+        with open(cpath, "w") as f:
+            json.dump(M.CORPUS, f)
         try:
-            r = subprocess.run([sys.executable, "-B", "-c", CHILD, path], cwd=boot.VERIF, env=env, capture_output=True, text=True, timeout=300)
+            r = subprocess.run([sys.executable, "-B", "-c", CHILD, path, cpath], cwd=boot.VERIF, env=env, capture_output=True, text=True, timeout=300)
         except subprocess.TimeoutExpired:
             ctx.inconclusive.append(f"child interpreter for {name} timed out")
             return
@@ -224,7 +227,34 @@ def known_finding_reproducer(ctx):
         ctx.violation("pickle-dumps", f"decorator-form dataset: {type(e).__name__}: {str(e)[:160]}", {"graph": "deco", "mechanism": mech})
 
 
+def wired_together(ctx, proto):
+    """Objects pickled together stay wired together: after loading (total, dependency) a registration on the loaded
+    dependency is seen by the loaded consumer (and not by the originals)."""
+    for consumer in (M.ds_total, M.ds_total_sig):
+        total2, dep2 = pickle.loads(pickle.dumps((consumer, M.ds_dep), protocol=proto))
+        alias = f"only-on-the-copy-{proto}-{consumer.__name__}"  # (never evaluated before: stored values travel in the pickle)
+        dep2.register(alias, Value(("copy-only",)))
+        got = observe(total2.evaluate, {"D": alias, "C": 1})
+        orig = observe(consumer.evaluate, {"D": alias, "C": 1})
+        ctx.evaluations += 2
+        ctx.count("wired_together_checks")
+        if "copy-only" not in repr(got):
+            ctx.violation("copy-not-usable", f"protocol {proto}: (consumer, dependency) pickled together; a registration on the loaded dependency is not seen by the loaded consumer: {short(got)}",
+                          {"graph": "wired", "protocol": proto})
+            return
+        if "copy-only" in repr(orig):
+            ctx.violation("copy-shares-state", f"protocol {proto}: registering on the loaded dependency changed the original consumer: {short(orig)}", {"graph": "wired", "protocol": proto})
+            return
+
+
 def run(ctx):
+    # state that exists only at run time (never in a freshly imported module): it must travel inside the pickle
+    if "run-time" not in M.ds_dep.overloads.lookup:
+        M.ds_dep.register("run-time", Value(("registered-at-run-time",)))
+        M.CORPUS.append({"D": "run-time", "C": 4})
+    for proto in range(0, pickle.HIGHEST_PROTOCOL + 1):
+        if proto % ctx.shards == ctx.shard:
+            wired_together(ctx, proto)
     names = sorted(M.GRAPHS)
     jobs = [(n, p) for n in names for p in range(0, pickle.HIGHEST_PROTOCOL + 1)]
     if ctx.shard == 0:
@@ -246,7 +276,12 @@ def run(ctx):
 
 def replay(ctx, rep):
     w = rep["witness"]
-    if w.get("graph") == "deco":
+    if "run-time" not in M.ds_dep.overloads.lookup:
+        M.ds_dep.register("run-time", Value(("registered-at-run-time",)))
+        M.CORPUS.append({"D": "run-time", "C": 4})
+    if w.get("graph") == "wired":
+        wired_together(ctx, w.get("protocol", 2))
+    elif w.get("graph") == "deco":
         known_finding_reproducer(ctx)
     elif "graph" in w:
         roundtrip(ctx, w["graph"], w.get("protocol", pickle.HIGHEST_PROTOCOL))
